@@ -177,6 +177,10 @@ func (p *partition) IsExpire() bool {
 
 	opt := p.shard.Database().GetOption()
 	ahead, _ := opt.GetAcceptWritableRange()
+	if _, behind := opt.GetAcceptWritableRange(); behind > ahead {
+		// writes of this family are accepted until its end + behind: the log must live as long
+		ahead = behind
+	}
 	timeRange := p.family.TimeRange()
 	now := timeutil.Now()
 	// add 15 minute buffer
